@@ -41,9 +41,16 @@ Definition enumerate (slots : list (option driver)) : list ident := enumerate_fr
 (* device_manager_count *)
 Definition count (ids : list ident) : N := N.of_nat (length ids).
 
+(* the i-th element, i a binary number (an index may be any uint32_t: no unary conversion) *)
+Fixpoint nthN {A : Type} (l : list A) (i : N) : option A :=
+  match l with
+  | [] => None
+  | x :: t => if i =? 0 then Some x else nthN t (N.pred i)
+  end.
+
 (* device_manager_get: identifiers_.at(index) -- std::out_of_range is caught at the C boundary -> Device_Err *)
 Definition get (ids : list ident) (i : N) : result :=
-  match nth_error ids (N.to_nat i) with
+  match nthN ids i with
   | Some d => Ok d
   | None => Err
   end.
@@ -61,7 +68,7 @@ Fixpoint cut_nul (s : list N) : list N :=
 (* device_manager_select_inner_, device.manager.cpp:342-357, for name_ != NULL:
      std::string name;
      if (name_ && bytes_of_name) { name.assign(name_, bytes_of_name);
-                                   if (*name.rbegin() == '\0') name.erase(find(name, '\0'), end); }            *)
+                                   if (name.back() is NUL) name.erase(find(name, '\0'), end); }            *)
 Definition prep (p : list N) : list N :=
   if is_nil p then []
   else if last p 1 =? 0 then cut_nul p
@@ -126,9 +133,9 @@ End Engine.
 Record opened : Type := mkopened { odev : N; okind : N; oname : list N }.
 
 Definition open_dev (slots : list (option driver)) (drv dv : N) : option opened :=
-  match nth_error slots (N.to_nat drv) with
+  match nthN slots drv with
   | Some (Some d) =>
-    match nth_error d (N.to_nat dv) with
+    match nthN d dv with
     | Some x => Some (mkopened dv (dkind x) (dname x))
     | None => None
     end
